@@ -86,6 +86,12 @@ def _stringy(e) -> bool:
 
 
 def sym(px, func, expr, depth: int = 3, _bound: typing.Optional[dict] = None) -> typing.List[Alt]:
+    if _bound:
+        # what the caller knows about a local on its path takes precedence over the flow-insensitive view of the function
+        expr = _Bind(_bound).visit(copy.deepcopy(expr))
+        if isinstance(expr, ast.Name) and expr.id in _bound:
+            expr = copy.deepcopy(_bound[expr.id])
+        ast.fix_missing_locations(expr)
     e = pyfront.subst_locals(func.node, expr)
     if _bound:
         e = _Bind(_bound).visit(copy.deepcopy(e))
